@@ -20,7 +20,9 @@ Fixpoint embC (e: ex) : node :=
   | XId a => VNode C_ID [VStr a] None
   | XConst _ v ty => VNode C_Constant [VStr ty; VStr v] None
   | XBin o l r => VNode C_BinaryOp [VStr o; embC l; embC r] None
-  | XUn o x => VNode C_UnaryOp [VStr o; embC x] None
+  | XUn o x | XPre o x => VNode C_UnaryOp [VStr o; embC x] None
+  | XPost o x => VNode C_UnaryOp [VStr (112%N :: o); embC x] None
+  | XSizeof x => VNode C_UnaryOp [VStr (s2l "sizeof"); embC x] None
   | XIdx b i => VNode C_ArrayRef [embC b; embC i] None
   | XMem b ty f => VNode C_StructRef [embC b; VStr ty; VNode C_ID [VStr f] None] None
   | XCall b args => VNode C_FuncCall [embC b; match args with [] => VNone | _ => VNode C_ExprList [VList (map embC args)] None end] None
@@ -38,7 +40,9 @@ Fixpoint ptext (e: ex) : str :=
   | XBin o l r =>
     (if simple l || keepLx rp o l then ptext l else par (vxt l (ptext l))) ++ s " " ++ o ++ s " " ++
     (if simple r || keepRx rp o r then ptext r else par (vxt r (ptext r)))
-  | XUn o x => o ++ wrapt x (ptext x)
+  | XUn o x | XPre o x => o ++ wrapt x (ptext x)
+  | XPost o x => wrapt x (ptext x) ++ o
+  | XSizeof x => s "sizeof(" ++ ptext x ++ s ")"
   | XIdx b i => wrapt b (ptext b) ++ s "[" ++ ptext i ++ s "]"
   | XMem b ty f => wrapt b (ptext b) ++ ty ++ f
   | XCall b args => wrapt b (ptext b) ++ s "(" ++ join_str (s ", ") (map (fun a => vxt a (ptext a)) args) ++ s ")"
@@ -112,6 +116,9 @@ Proof.
     unfold as_str, gbind, gret, gcrash, gprec. cbv beta iota. cbn [andb].
     destruct (prec_lookup_s o0) as [pd|]; [|congruence]. destruct (prec_lookup_s o) as [pn|]; [|congruence]. reflexivity.
   - cbn [simple orb keepLx embC]. change (is_c C C_BinaryOp (VNode C_UnaryOp [VStr o0; embC l] None)) with false. rewrite andb_false_r. reflexivity.
+  - cbn [simple orb keepLx embC]. change (is_c C C_BinaryOp (VNode C_UnaryOp [VStr o0; embC l] None)) with false. rewrite andb_false_r. reflexivity.
+  - cbn [simple orb keepLx embC]. change (is_c C C_BinaryOp (VNode C_UnaryOp [VStr (112%N :: o0); embC l] None)) with false. rewrite andb_false_r. reflexivity.
+  - cbn [simple orb keepLx embC]. change (is_c C C_BinaryOp (VNode C_UnaryOp [VStr (s2l "sizeof"); embC l] None)) with false. rewrite andb_false_r. reflexivity.
   - cbn [simple orb keepLx embC]. change (is_c C C_BinaryOp (VNode C_TernaryOp [embC l1; embC l2; embC l3] None)) with false. rewrite andb_false_r. reflexivity.
   - cbn [simple orb keepLx embC]. change (is_c C C_BinaryOp (VNode C_Assignment [VStr o0; embC l1; embC l2] None)) with false. rewrite andb_false_r. reflexivity.
   - cbn [simple orb keepLx embC]. change (is_c C C_BinaryOp (VNode C_ExprList [VList (map embC es)] None)) with false. rewrite andb_false_r. reflexivity.
@@ -126,6 +133,9 @@ Proof.
     unfold as_str, gbind, gret, gcrash, gprec. cbv beta iota. cbn [andb].
     destruct (prec_lookup_s o0) as [pd|]; [|congruence]. destruct (prec_lookup_s o) as [pn|]; [|congruence]. reflexivity.
   - cbn [simple orb keepRx embC]. change (is_c C C_BinaryOp (VNode C_UnaryOp [VStr o0; embC l] None)) with false. rewrite andb_false_r. reflexivity.
+  - cbn [simple orb keepRx embC]. change (is_c C C_BinaryOp (VNode C_UnaryOp [VStr o0; embC l] None)) with false. rewrite andb_false_r. reflexivity.
+  - cbn [simple orb keepRx embC]. change (is_c C C_BinaryOp (VNode C_UnaryOp [VStr (112%N :: o0); embC l] None)) with false. rewrite andb_false_r. reflexivity.
+  - cbn [simple orb keepRx embC]. change (is_c C C_BinaryOp (VNode C_UnaryOp [VStr (s2l "sizeof"); embC l] None)) with false. rewrite andb_false_r. reflexivity.
   - cbn [simple orb keepRx embC]. change (is_c C C_BinaryOp (VNode C_TernaryOp [embC l1; embC l2; embC l3] None)) with false. rewrite andb_false_r. reflexivity.
   - cbn [simple orb keepRx embC]. change (is_c C C_BinaryOp (VNode C_Assignment [VStr o0; embC l1; embC l2] None)) with false. rewrite andb_false_r. reflexivity.
   - cbn [simple orb keepRx embC]. change (is_c C C_BinaryOp (VNode C_ExprList [VList (map embC es)] None)) with false. rewrite andb_false_r. reflexivity.
@@ -139,6 +149,16 @@ Proof.
   assert (G: forall x, punct_kind_l x = None -> str_eqb o x = false).
   { intros x Hx. destruct (str_eqb o x) eqn:E; [|reflexivity]. apply str_eqb_eq in E. subst x. rewrite Hx in H. discriminate H. }
   repeat split; apply G; vm_compute; reflexivity.
+Qed.
+
+Lemma incdec_spelling : forall o, incdec_ok o = true -> o = s "++" \/ o = s "--".
+Proof.
+  intros o H. unfold incdec_ok in H. unfold punct_kind_l in H.
+  destruct (find (fun e => str_eqb (snd e) o) fixed_tokens) as [[k sp]|] eqn:E; [|discriminate H]. cbn [option_map fst] in H.
+  apply find_some in E. destruct E as [Hin Heq]. cbn [snd] in Heq. apply str_eqb_eq in Heq. subst o.
+  assert (G: forallb (fun e => negb (kind_eqb (fst e) K_PLUSPLUS || kind_eqb (fst e) K_MINUSMINUS) || str_eqb (snd e) (s "++") || str_eqb (snd e) (s "--")) fixed_tokens = true) by (vm_compute; reflexivity).
+  pose proof (proj1 (forallb_forall _ _) G _ Hin) as He. cbn [fst snd] in He. rewrite H in He. cbn [negb orb] in He.
+  apply orb_true_iff in He. destruct He as [He|He]; apply str_eqb_eq in He; [left|right]; exact He.
 Qed.
 
 (* paren_unless_simple on an embedded expression *)
@@ -170,7 +190,7 @@ Proof.
                forall a, In a l -> visit C rp f (embC a) st = GOk (ptext a, st)).
   { intros l f Hwl Hs Hfl a Ha. pose proof (in_sum l a Ha) as Hsa. apply IH; [lia| |lia].
     exact (proj1 (Forall_forall _ _) (wfl_Forall l Hwl) a Ha). }
-  destruct e as [a|k v ty|o l r|o x|b i|b ty fld|b args|c t f|o l r|es]; cbn [size] in Hn, Hf; cbn [wf] in Hw.
+  destruct e as [a|k v ty|o l r|o x|o x|o x|x|b i|b ty fld|b args|c t f|o l r|es]; cbn [size] in Hn, Hf; cbn [wf] in Hw.
   - destruct fuel as [|fu]; [lia|]. reflexivity.
   - destruct fuel as [|fu]; [lia|]. reflexivity.
   - destruct Hw as (Ho & Hl & Hr). destruct fuel as [|[|[|fu]]]; try lia. cbn [embC]. rewrite visit_binop.
@@ -186,6 +206,18 @@ Proof.
     + reflexivity.
   - destruct Hw as (Ho & Hx). destruct (unop_not_special o Ho) as (H1 & H2 & H3). destruct fuel as [|[|[|fu]]]; try lia.
     cbn [embC]. rewrite visit_un_raw. rewrite H1, H2, H3. unfold gbind at 1. rewrite (pus_emb fu x (ptext x) st); [reflexivity|]. apply IH; [lia|exact Hx|lia].
+  - destruct Hw as (Ho & Hx). destruct (incdec_spelling o Ho) as [-> | ->]; destruct fuel as [|[|[|fu]]]; try lia;
+      cbn [embC]; rewrite visit_un_raw; cbv iota;
+      change (str_eqb (s "++") (s "sizeof")) with false; change (str_eqb (s "++") (s "p++")) with false; change (str_eqb (s "++") (s "p--")) with false;
+      change (str_eqb (s "--") (s "sizeof")) with false; change (str_eqb (s "--") (s "p++")) with false; change (str_eqb (s "--") (s "p--")) with false; cbv iota;
+      unfold gbind at 1; (rewrite (pus_emb fu x (ptext x) st); [reflexivity|]); apply IH; try exact Hx; lia.
+  - destruct Hw as (Ho & Hx). destruct (incdec_spelling o Ho) as [-> | ->]; destruct fuel as [|[|[|fu]]]; try lia;
+      cbn [embC]; rewrite visit_un_raw;
+      [change (str_eqb (112%N :: s "++") (s "sizeof")) with false; change (str_eqb (112%N :: s "++") (s "p++")) with true
+      |change (str_eqb (112%N :: s "--") (s "sizeof")) with false; change (str_eqb (112%N :: s "--") (s "p++")) with false; change (str_eqb (112%N :: s "--") (s "p--")) with true];
+      cbv iota; unfold gbind at 1; (rewrite (pus_emb fu x (ptext x) st); [reflexivity|]); apply IH; try exact Hx; lia.
+  - destruct fuel as [|[|[|fu]]]; try lia. cbn [embC]. rewrite visit_un_raw. change (str_eqb (s2l "sizeof") (s "sizeof")) with true. cbv iota.
+    unfold gbind at 1. rewrite (IH x) by (try exact Hw; lia). reflexivity.
   - destruct Hw as (Hb & Hi). destruct fuel as [|[|[|fu]]]; try lia. cbn [embC]. rewrite visit_idx.
     unfold gbind at 1. rewrite (pus_emb fu b (ptext b) st) by (apply IH; [lia|exact Hb|lia]).
     unfold gbind at 1. rewrite (IH i) by (try exact Hi; lia). reflexivity.
@@ -241,7 +273,7 @@ Fixpoint ids_nb (e: ex) : Prop :=
   | XId a => despace a = a
   | XConst _ v _ => despace v = v
   | XBin _ l r => ids_nb l /\ ids_nb r
-  | XUn _ x => ids_nb x
+  | XUn _ x | XPre _ x | XPost _ x | XSizeof x => ids_nb x
   | XIdx b i => ids_nb b /\ ids_nb i
   | XMem b _ f => despace f = f /\ ids_nb b
   | XCall b args => ids_nb b /\ (fix nl (l: list ex) : Prop := match l with [] => True | x :: r => ids_nb x /\ nl r end) args
@@ -287,7 +319,7 @@ Proof.
     change (list_sum (map size (x :: r))) with (size x + list_sum (map size r)) in Hs. cbn [map]. constructor.
     - apply vx_text. apply IH; [lia|exact Hwx|exact Hnx].
     - apply IHr; [exact Hwr|exact Hnr|lia]. }
-  destruct e as [a|k v ty|o l r|o x|b i|b ty fld|b args|c t f|o l r|es]; cbn [size] in Hsz; cbn [wf] in Hw; cbn [ids_nb] in Hn.
+  destruct e as [a|k v ty|o l r|o x|o x|o x|x|b i|b ty fld|b args|c t f|o l r|es]; cbn [size] in Hsz; cbn [wf] in Hw; cbn [ids_nb] in Hn.
   - cbn. rewrite app_nil_r. exact Hn.
   - cbn. rewrite app_nil_r. exact Hn.
   - destruct Hw as (Ho & Hl & Hr). destruct Hn as (Hnl & Hnr). destruct (binop_punct o Ho) as [k Hk].
@@ -307,6 +339,17 @@ Proof.
     assert (Ex: despace (ptext rp x) = spell (xt rp x)) by (apply IH; [lia|exact Hx|exact Hn]).
     cbn [ptext xt]. rewrite despace_app. change ((opk o, o) :: ?y) with ([(opk o, o)] ++ y). rewrite spell_app.
     rewrite (punct_noblank o k Hk). change (spell [(opk o, o)]) with (o ++ []). rewrite app_nil_r. f_equal. apply wrap_text. exact Ex.
+  - destruct Hw as (Ho & Hx). unfold incdec_ok in Ho. destruct (punct_kind_l o) as [k|] eqn:Hk; [|discriminate Ho].
+    assert (Ex: despace (ptext rp x) = spell (xt rp x)) by (apply IH; [lia|exact Hx|exact Hn]).
+    cbn [ptext xt]. rewrite despace_app. change ((opk o, o) :: ?y) with ([(opk o, o)] ++ y). rewrite spell_app.
+    rewrite (punct_noblank o k Hk). change (spell [(opk o, o)]) with (o ++ []). rewrite app_nil_r. f_equal. apply wrap_text. exact Ex.
+  - destruct Hw as (Ho & Hx). unfold incdec_ok in Ho. destruct (punct_kind_l o) as [k|] eqn:Hk; [|discriminate Ho].
+    assert (Ex: despace (ptext rp x) = spell (xt rp x)) by (apply IH; [lia|exact Hx|exact Hn]).
+    cbn [ptext xt]. rewrite despace_app, spell_app. rewrite (punct_noblank o k Hk), (wrap_text x _ _ Ex).
+    f_equal. unfold spell. cbn [map concat snd]. rewrite app_nil_r. reflexivity.
+  - assert (Ex: despace (ptext rp x) = spell (xt rp x)) by (apply IH; [lia|exact Hw|exact Hn]).
+    cbn [ptext xt]. rewrite !despace_app. change ((K_SIZEOF, s2l "sizeof") :: ?y) with ([(K_SIZEOF, s2l "sizeof")] ++ y). rewrite spell_app, spell_parkv.
+    rewrite Ex. reflexivity.
   - destruct Hw as (Hb & Hi). destruct Hn as (Hnb & Hni).
     assert (Eb: despace (ptext rp b) = spell (xt rp b)) by (apply IH; [lia|exact Hb|exact Hnb]).
     assert (Ei: despace (ptext rp i) = spell (xt rp i)) by (apply IH; [lia|exact Hi|exact Hni]).
